@@ -157,7 +157,7 @@ def cmd_round(rnd):
     names = []
     for wt in sorted(glob.glob(f"/tmp/wt{rnd}-C??")):
         pid = wt[-3:]
-        if not os.path.isdir(os.path.join(wt, "SEEDED", "B")):
+        if not os.path.isfile(os.path.join(wt, "SEEDED", "B", "meta.json")) or pid in os.environ.get("SEEDED_SKIP", "").split(","):
             print("not ready:", wt)
             continue
         cmd_import(wt, pid, rnd)
